@@ -9,6 +9,91 @@ VERIF = os.path.dirname(HERE)
 BASELINE = "cd /repo && /venv/bin/python -m pytest -ra -q -p no:cacheprovider --timeout=900 --continue-on-collection-errors"
 
 CHECKS = {
+    "C01": dict(
+        technique="offline judge over recorded design-run event logs (scenario engine): in-place re-simulation on a deep copy + independent superposition oracle",
+        text="Exploration: full GHEManager.find_design() runs (6 methods x 4 pipes x 2 flow types x 12 load families, magnitudes below/inside/beyond "
+        "capacity, horizons 12-360 months) execute under search/flow/simulation taps; every design returned without the continue escape is "
+        "re-simulated in place and its excess recomputed by the harness (<= 1e-3 K), cross-checked by the O(n^2) superposition oracle.",
+        note="pygfunction's g-functions and Rb* are trusted inputs; a run whose sub-search printed an escape message with the flag on is not judged",
+        ref="DESIGN.md section 2 C01",
+    ),
+    "C02": dict(
+        technique="outcome/exception classifier over recorded search logs; policy table from observed excesses; independent re-evaluation of error runs",
+        text="Exploration: the scenario pool drives loads from far below to far beyond capacity, caps and continue flag both ways; each run's "
+        "height window, cap, exception type and the unmet-design policy (from the first three evaluations of every search() call) are judged; "
+        "error runs of the 1-D searches are re-evaluated with the harness's own GHE/simulation. Nested-search tail defects are listed known findings.",
+        note="non-degenerate inputs by construction; 'largest allowed' accepts < cap or <= cap",
+        ref="DESIGN.md section 2 C02",
+    ),
+    "C04": dict(
+        technique="wrapper on remove_cutout recording every cut of polygonal_land_constraint; exact/vectorised crossing-number oracle with the documented edge rule",
+        text="Exploration: generated property outlines (convex, star-shaped, orthogonal; 1-3 outlines, 0-3 no-go polygons, grid lines coinciding "
+        "with edges) and the repository's test polygons; every recorded cut and every field of the design's nested domain is judged for "
+        "containment, no-go exclusion, no clearly-inside borehole dropped, stable count ordering.",
+        note="points whose distance-sum excess lies in [0.005, 0.02] are not judged; vectorised classifier cross-checked against the exact one each run",
+        ref="DESIGN.md section 2 C04",
+    ),
+    "C05": dict(
+        technique="real search methods executed on scripted excess tables (exhaustive small scope) + tracker relations on recorded real design runs",
+        text="Exploration with an exhaustive sub-scope: the real Bisection1D.search runs on every list length x threshold x cap x flag and all sign "
+        "patterns (n <= 9/11); real Bisection2D/BisectionZD flows on random monotone nested tables; on every real design run the root condition "
+        "(|excess(H)| <= 1e-3 K), bound sign, drilling clause, predecessor clause and evaluation budget are judged.",
+        note="scripted tables use distinct magnitudes; predecessor clause only where the observed excess is monotone",
+        ref="DESIGN.md section 2 C05",
+    ),
+    "C12": dict(
+        technique="offline judge over recorded summaries vs deep-copied in-place re-simulation; tracker row algebra",
+        text="Exploration: for every design run of the scenario pool (escapes included) the summary's borehole count, rows, drilling, reported "
+        "max/min EFT (vs re-simulation at the reported height, 1e-3 K) and every search-log row are checked; evidence lists the outcome classes.",
+        note="re-simulation on a deep copy made after the summary was built",
+        ref="DESIGN.md section 2 C12",
+    ),
+    "C13": dict(
+        technique="bitwise digests over API histories and object operation sequences, second process with another hash seed",
+        text="Exploration: small scenarios of every method are run fresh and through six call histories; real GHE objects are driven by random "
+        "simulate/size sequences and compared bit for bit with a fresh object.",
+        note="bit equality of coordinates, height, temperatures",
+        ref="DESIGN.md section 2 C13",
+    ),
+    "C14": dict(
+        technique="sys.monitoring LINE-event step budget on the rowwise loops; wrapper on gen_borehole_config; geometric oracles",
+        text="Exploration: the real field_optimization_fr / _wp_space_fr run on generated convex lots and rectangles under a logical step budget "
+        "(termination), with containment, no-go exclusion, nearest-neighbour spacing, exact-rational rectangle lattice, best-rotation and "
+        "translation checks.",
+        note="degenerate sliver lots are counted, not judged; ties in floor decisions are avoided by construction",
+        ref="DESIGN.md section 2 C14",
+    ),
+    "C17": dict(
+        technique="write -> independent jsonschema validation -> CLI loader under an instance-capturing wrapper -> write -> byte comparison; design digests",
+        text="Exploration: configurations of all six methods x four pipes x five fluids x optional keys are written by the tool, validated by the "
+        "harness section by section and by the tool, loaded through _run_manager_from_cli_worker, written again and compared byte for byte; a "
+        "sample of designs is run both ways.",
+        note="jsonschema against the repository's schema files; five documented names upper-cased",
+        ref="DESIGN.md section 2 C17",
+    ),
+    "C18": dict(
+        technique="real CLI subprocesses; expected exit status from independent per-section schema validation and output-file inventory",
+        text="Exploration (thorough: exhaustive over the corruption catalogue): every single-field corruption and letter-case variant of 12 small "
+        "demo-style inputs x {--validate-only, plain, no output directory}, full valid runs, --convert IDF/XYZ.",
+        note="expected verdict from the harness's own jsonschema validation including loads.schema.json",
+        ref="DESIGN.md section 2 C18",
+    ),
+    "C19": dict(
+        technique="recording icontract post-conditions on the calendar helpers (exhaustive scopes); table checks on every recorded design run",
+        text="Exploration with exhaustive sub-scopes: all 8760 hour labels vs datetime; hours_to_month over 30 years at 0.25 h vs closed form, "
+        "monotone, continuous, integer month ends; Loadings/BoreFieldData/Gfunction rows of every design run of the pool vs inputs, selected "
+        "coordinates and the simulated curve.",
+        note="non-leap calendar",
+        ref="DESIGN.md section 2 C19",
+    ),
+    "C20": dict(
+        technique="wrappers on retrieve_flow (both search classes) and BaseGHE.__init__; paired BOREHOLE/SYSTEM evaluations; flow events of recorded design runs",
+        text="Exploration: direct retrieve_flow calls with N in 1..400 on real search instances, paired calculate_excess with v per borehole vs "
+        "N v system (mass flow, Rb*, all temperatures equal to 1e-10), SYSTEM evaluations along candidate lists, plus the flow events of every "
+        "design run of the scenario pool.",
+        note="N v / N compared at 1e-10 relative; fluid density from pygfunction",
+        ref="DESIGN.md section 2 C20",
+    ),
     "C03": dict(
         technique="runtime geometry assertions on every candidate field obtained through the public API (generated hostile lots)",
         text="Exploration: every field of every candidate list of the near-square, rectangle, bi-rectangle and bi-zoned designs is "
